@@ -182,6 +182,19 @@ def is_under(fn, defs):
     return any(fn.path.startswith(d) or _n(fn.path).startswith(_n(d)) for d in defs)
 
 
+def is_under_hosted(http, fn, defs, _depth=0):
+    """fn lies in one of the bodies `defs`, or in a helper (plain or async) that did not exist when the rules were confirmed and whose
+    every use was spliced into such a body"""
+    if is_under(fn, defs):
+        return True
+    root = fn.root or fn.path
+    if _depth >= 4:
+        return False
+    hosts = [h for h in http.fns(fn.view) if root in (h.j.get('inlined') or []) and (h.root or h.path) != root]
+    still_there = any(g.path == root for g in http.fns(fn.view))
+    return bool(hosts) and not still_there and all(is_under_hosted(http, h, defs, _depth + 1) for h in hosts)
+
+
 def check_emission(rep, http):
     under_next = endpoints_under_next(http)
     if not under_next:
@@ -206,7 +219,7 @@ def check_emission(rep, http):
             in_sender_impl = 'EffectSender' in f.path and ('as crux_http::protocol::EffectSender' in f.path or
                                                             path_matches(f.assoc.get('trait'), 'crux_http::protocol::EffectSender'))
             root_is_sender = 'as crux_http::protocol::EffectSender' in (f.root or '')
-            under = is_under(f, under_next)
+            under = is_under_hosted(http, f, under_next)
             if in_sender_impl or root_is_sender:
                 rep.ok('R16.c', key, 'inside the EffectSender implementation')
             elif under:
